@@ -1021,6 +1021,19 @@ func (v *V) runLoop(fr *Frame, s ast.Stmt, st *State, ls *LoopSpec, ord int, bod
 	})
 	frameInv(st, "inv-init", mods.heap, false)
 	head := st.clone()
+	if ls.Isolate {
+		// `loop N: isolate`: the invariant is meant to be self-contained; quantified facts written by
+		// contracts earlier on the path (outer invariants, callee postconditions) are dropped from the
+		// arbitrary-iteration state. Dropping hypotheses is sound; engine frame and closure facts stay.
+		var pc []string
+		for _, c := range head.pc {
+			if (strings.Contains(c, "(forall ") || strings.Contains(c, "(exists ")) && !hoistable(c) {
+				continue
+			}
+			pc = append(pc, c)
+		}
+		head.pc = pc
+	}
 	v.havoc(head, mods)
 	if extra != nil {
 		ex = extra(head)
